@@ -20,7 +20,33 @@ enum { OP11_RES_GIVE = 0, OP11_RES_TAKE, OP11_SM_GIVE, OP11_SM_TAKE, OP11_EXSM_G
        OP11_LEVELCACHE, OP11_TRANSFERS, OP11_KERNELS, OP11_SOLVE, OP11_LINESOLVERS, OP11_COUNT };
 
 // Runs the operator; returns the concatenated outputs (a deterministic function of the case for a race-free code).
+inline std::vector<double> runOp11Impl(const KV& c, int threads);
+// nested=1: the whole operator is called from inside an enclosing parallel region (nested parallelism off, the default), so
+// every region of the code under test gets a team of ONE although `threads` were requested: OpenMP never promises the
+// requested team size, and the results must not depend on it
 inline std::vector<double> runOp11(const KV& c, int threads)
+{
+    if (c.getI("nested", 0) == 0)
+        return runOp11Impl(c, threads);
+    std::vector<double> out;
+    std::string err;
+#pragma omp parallel num_threads(2)
+    {
+#pragma omp single
+        {
+            try {
+                out = runOp11Impl(c, threads);
+            }
+            catch (const std::exception& e) {
+                err = e.what();
+            }
+        }
+    }
+    if (!err.empty())
+        throw std::runtime_error(err);
+    return out;
+}
+inline std::vector<double> runOp11Impl(const KV& c, int threads)
 {
     const int op = (int)c.getI("op");
     std::vector<double> out;
@@ -202,6 +228,7 @@ inline KV genCase11(bool forTsan)
     KV c;
     const int op = rweighted({4, 2, 4, 4, 4, 4, 3, 3, 2, 2, 2, 3, 1});
     c.putI("op", op);
+    c.putI("nested", forTsan ? 0 : rweighted({5, 1}));
     c.putU("x_seed", rseed());
     if (op == OP11_SOLVE) {
         SolverCfg s;
